@@ -125,6 +125,105 @@ def state_frame_items(tier):
     return out
 
 
+FRESH_CALLS = {"list", "sorted", "tuple"}
+
+
+def _fresh(expr, fn, cls, depth=0):
+    """'fresh' - the expression builds a new list on every evaluation; 'alias' - it can be an object the caller (or another
+    object) also holds; 'unknown' otherwise.  fn: enclosing function (for locals / parameters), cls: enclosing class (helpers)."""
+    if isinstance(expr, (ast.ListComp, ast.List)):
+        return "fresh"
+    if isinstance(expr, ast.Call) and isinstance(expr.func, ast.Name) and expr.func.id in FRESH_CALLS:
+        return "fresh"
+    if isinstance(expr, ast.IfExp):
+        a, b = _fresh(expr.body, fn, cls, depth), _fresh(expr.orelse, fn, cls, depth)
+        return "fresh" if a == b == "fresh" else ("alias" if "alias" in (a, b) else "unknown")
+    if isinstance(expr, ast.BinOp) and isinstance(expr.op, ast.Add):
+        return "fresh" if "fresh" in (_fresh(expr.left, fn, cls, depth), _fresh(expr.right, fn, cls, depth)) else "unknown"
+    if isinstance(expr, ast.Subscript) and isinstance(expr.slice, ast.Slice):
+        return "fresh"
+    if isinstance(expr, ast.Name):
+        params = {a.arg for a in fn.args.args + fn.args.kwonlyargs + fn.args.posonlyargs} | ({fn.args.vararg.arg} if fn.args.vararg else set())
+        binds = [n.value for n in ast.walk(fn) if isinstance(n, ast.Assign) and any(isinstance(t, ast.Name) and t.id == expr.id for t in n.targets)]
+        if expr.id in params and not binds:
+            return "alias"
+        if binds and expr.id not in params:
+            rs = {_fresh(b, fn, cls, depth) for b in binds}
+            return "fresh" if rs == {"fresh"} else ("alias" if "alias" in rs else "unknown")
+        return "alias" if expr.id in params else "unknown"
+    if isinstance(expr, ast.Call) and isinstance(expr.func, ast.Attribute) and isinstance(expr.func.value, ast.Name) and expr.func.value.id == "self" and depth < 3:
+        for c in cls:
+            for m in c.body:
+                if isinstance(m, ast.FunctionDef) and m.name == expr.func.attr:
+                    rets = [r.value for r in ast.walk(m) if isinstance(r, ast.Return) and r.value is not None]
+                    rs = {_fresh(r, m, cls, depth + 1) for r in rets}
+                    return "fresh" if rets and rs == {"fresh"} else ("alias" if "alias" in rs else "unknown")
+        return "unknown"
+    if isinstance(expr, ast.Attribute):
+        return "alias"
+    return "unknown"
+
+
+def ownership_items(tier):
+    """F3 (C04/C01/C15): a reaction owns its reactant / product lists - every assignment to self.reactants / self.products in the
+    package stores a list built by the assignment itself, never an object the caller passed in or another object holds (a caller
+    editing its own list afterwards would otherwise rewrite a reaction that is already part of a network)."""
+    out = []
+    classes = []
+    trees = list(_files())
+    for rel, tree in trees:
+        classes += [n for n in ast.walk(tree) if isinstance(n, ast.ClassDef)]
+    n_sites, bad, unk = 0, [], []
+    for rel, tree in trees:
+        for c in [n for n in ast.walk(tree) if isinstance(n, ast.ClassDef)]:
+            for fn in [m for m in c.body if isinstance(m, ast.FunctionDef)]:
+                for st in ast.walk(fn):
+                    if isinstance(st, ast.Assign):
+                        for t in st.targets:
+                            if isinstance(t, ast.Attribute) and isinstance(t.value, ast.Name) and t.value.id == "self" and t.attr in ("reactants", "products", "_reactants", "_products") \
+                                    and not (isinstance(st.value, ast.Call) and isinstance(st.value.func, ast.Name) and st.value.func.id == "set"):
+                                n_sites += 1
+                                r = _fresh(st.value, fn, [c] + classes)
+                                if r == "alias":
+                                    bad.append(f"{rel}:{st.lineno} {c.name}.{fn.name}: self.{t.attr} = {ast.unparse(st.value)[:60]}")
+                                elif r == "unknown":
+                                    unk.append(f"{rel}:{st.lineno} {c.name}.{fn.name}: self.{t.attr} = {ast.unparse(st.value)[:60]}")
+    it = _item("frame/reaction-owns-its-species-lists", not bad and not unk and n_sites > 0,
+               "; ".join(bad + unk)[:600] or f"{n_sites} assignments to reactants/products, each stores a list built in place")
+    if not bad and unk:
+        it["status"] = "unknown"
+    out.append(it)
+    return out
+
+
+def table_setter_items(tier):
+    """F4 (C08/C17): Species.set_known_elements / set_known_pseudoelements clear the class-level list and refill it from their argument,
+    so their precondition is that the argument is not that list itself.  Every call site in the package must pass something that
+    cannot be the live table: not the result of Species.known_elements() / known_pseudoelements() (the getters return the table, not
+    a copy) and not the class attribute, directly or through a local name bound to one of them."""
+    sites, bad = 0, []
+
+    def live(expr, fn, seen=()):
+        if isinstance(expr, ast.Call) and isinstance(expr.func, ast.Attribute) and expr.func.attr in ("known_elements", "known_pseudoelements") and not expr.args:
+            return True
+        if isinstance(expr, ast.Attribute) and expr.attr in ("_known_elements", "_known_pseudoelements") and isinstance(expr.value, ast.Name) and expr.value.id in ("Species", "cls"):
+            return True
+        if isinstance(expr, ast.Name) and expr.id not in seen:
+            binds = [n.value for n in ast.walk(fn) if isinstance(n, ast.Assign) and any(isinstance(t, ast.Name) and t.id == expr.id for t in n.targets)]
+            return any(live(b, fn, seen + (expr.id,)) for b in binds)
+        return False
+    for rel, tree in _files():
+        for fn in [n for n in ast.walk(tree) if isinstance(n, (ast.FunctionDef, ast.AsyncFunctionDef))]:
+            for c in ast.walk(fn):
+                if isinstance(c, ast.Call) and isinstance(c.func, ast.Attribute) and c.func.attr in ("set_known_elements", "set_known_pseudoelements") and c.args:
+                    sites += 1
+                    if live(c.args[0], fn):
+                        bad.append(f"{rel}:{c.lineno} {fn.name}: {ast.unparse(c)[:80]} is called with the live table")
+    return [_item("frame/table-setters-never-receive-the-live-table", not bad and sites > 0, "; ".join(bad)[:500] or f"{sites} call sites of the table setters")]
+
+
 if __name__ == "__main__":
+    for it in ownership_items("quick") + table_setter_items("quick"):
+        print(it["status"], it["name"], it["detail"][:300])
     for it in state_frame_items("quick"):
         print(it["status"], it["name"], it["detail"][:300])
